@@ -19,7 +19,7 @@ CHECKS = {
 
  "C04": dict(level="fault_enumeration", family="silent", ref="6.2",
    technique="deterministic simulation: flipped-stored-byte faults enumerated over every data block and every parity block of seeded synced arrays, log-tag/bad-mark oracle",
-   text="Per seeded synced array the corruption targets (every file block incl. the last partial one, every parity block of every level of every used stripe) are enumerated and damaged (1 bit / 1 byte / whole block / zeroing, stamp restored, alone or combined); check -a, check, scrub full and scrub 100% must name exactly the damaged locations, fail, and scrub must mark exactly those stripes bad (decoded content and status -G); undamaged control runs must stay silent."),
+   text="Per seeded synced array the corruption targets (every file block incl. the last partial one, every parity block of every level of every used stripe) are enumerated and damaged (1 bit / 1 byte / whole block / zeroing, stamp restored, alone or combined); check -a, check, scrub full and scrub 100% must name exactly the damaged locations, fail, and scrub must mark exactly those stripes bad (decoded content and status -G); undamaged control runs must stay silent. On partly synced arrays and arrays with files changed after the last sync, the synced blocks of unchanged files (also in stripes other disks made unsynced) and the parity of fully synced stripes are damaged too; report, location, failing status and bad mark are judged there."),
  "C08": dict(level="fault_enumeration", family="ioerr", ref="6.6",
    technique="deterministic simulation: EIO/ENOSPC injected at every logical data/parity read and parity write of sync and scrub (addressed by file+offset), under io-cache depths 1..128 and seeded schedules",
    text="The I/O targets of a scenario are read off a fault-free trace and each fails once (alone or in pairs) under several cache depths and schedules; judged by exit status, diagnostics, summary:error_io, the state of the hit stripe in the decoded content against the independent parity oracle, the other stripes, and the fix -e / sync / scrub -p bad repair path."),
